@@ -315,9 +315,40 @@ static void case_random(vh_rng* r, long index) {
   if (nops >= 20) { vh_nontrivial(); }
 }
 
+/* positions beyond 2 GiB: a sparse file (one seek past 2^31, one byte written) costs no disk space; stell agrees with
+   the C library there exactly as it does at small offsets, and sseek from the end and from the current position land
+   where they should */
+static void far_positions(void) {
+  char fp[64]; snprintf(fp, sizeof fp, "c20-far-%d.bin", vh.shard);
+  var f = new(File, $S(fp), $S("w+b"));
+  var exc = NULL;
+  static const int64_t FAR[] = { ((int64_t)1 << 31) - 1, (int64_t)1 << 31, ((int64_t)1 << 31) + 12345, ((int64_t)1 << 32) - 1, ((int64_t)1 << 32) + 7, ((int64_t)3 << 32) + 99 };
+  for (size_t k = 0; k < sizeof FAR / sizeof FAR[0]; k++) {
+    vh.oplen = 0; vh.oplog[0] = 0; vh.nops = 0;
+    vh_op("sseek(%" PRId64 ", SEEK_SET); stell; swrite(1 byte); stell; sseek(-1, SEEK_CUR); sread", FAR[k]);
+    int64_t t0 = -7, t1 = -7; char b = 0;
+    VH_CATCH(sseek(f, FAR[k], SEEK_SET), exc);
+    if (!exc) { VH_CATCH(t0 = stell(f), exc); }
+    if (!exc) { VH_CATCH(swrite(f, "Z", 1), exc); }
+    if (!exc) { VH_CATCH(t1 = stell(f), exc); }
+    vh_evals(3);
+    if (exc) { vh_violation("C20:position:far-offset-raised", "an operation at offset %" PRId64 " raised %s", FAR[k], vh_exc_name(exc)); break; }
+    int64_t c1 = (int64_t)ftello(((struct File*)f)->file);
+    if (t0 != FAR[k] || t1 != FAR[k] + 1 || t1 != c1) { vh_violation("C20:position:stell-differs-from-ftell", "beyond 2 GiB: stell gave %" PRId64 " after the seek and %" PRId64 " after one byte; the C library says %" PRId64 " (sought %" PRId64 ")", t0, t1, c1, FAR[k]); break; }
+    VH_CATCH(sseek(f, -1, SEEK_CUR), exc);
+    if (!exc) { VH_CATCH(sread(f, &b, 1), exc); }
+    if (exc || b != 'Z' || stell(f) != FAR[k] + 1) { vh_violation("C20:roundtrip:bytes-read-differ-from-bytes-written", "the byte written at offset %" PRId64 " was not read back (%s)", FAR[k], vh_exc_name(exc)); break; }
+    VH_CATCH(sseek(f, 0, SEEK_END), exc);
+    if (exc || stell(f) != (int64_t)ftello(((struct File*)f)->file)) { vh_violation("C20:position:stell-differs-from-ftell", "after sseek(0, SEEK_END) in a file of more than 2 GiB stell and the C library disagree"); break; }
+    vh_count("positions_beyond_2_gib_checked");
+  }
+  sclose(f); del(f); remove(fp);
+}
+
 static void fixed(void) {
   snprintf(path, sizeof path, "c20-fixed-%d.bin", vh.shard);
   track = 1;
+  far_positions();
   /* with-block closes exactly once */
   {
     long o0 = opens, c0 = closes;
